@@ -3,6 +3,9 @@
 
 #include "fiber_semaphore.h"
 
+#include <errno.h>
+#include <limits.h>
+
 #include "fiber_manager.h"
 
 int fiber_semaphore_init(fiber_semaphore_t* semaphore, int value) {
@@ -74,6 +77,10 @@ int fiber_semaphore_post_internal(fiber_semaphore_t* semaphore) {
         return 1;
       }
     }
+    if (prev_counter == INT_MAX) {
+      // one more unit cannot be represented
+      return -1;
+    }
   } while (!atomic_compare_exchange_weak_explicit(
       &semaphore->counter, &prev_counter, prev_counter + 1,
       memory_order_release, memory_order_relaxed));
@@ -83,6 +90,10 @@ int fiber_semaphore_post_internal(fiber_semaphore_t* semaphore) {
 
 int fiber_semaphore_post(fiber_semaphore_t* semaphore) {
   const int had_waiters = fiber_semaphore_post_internal(semaphore);
+  if (had_waiters < 0) {
+    errno = EOVERFLOW;
+    return FIBER_ERROR;
+  }
   if (had_waiters) {
     // the semaphore was contended - be nice and let the waiter run
     fiber_yield();
